@@ -287,6 +287,8 @@ def rule_R3(ctx, typer):
 
 # ---------------------------------------------------------------------- R4
 ALLOWED_METHODS = {"split", "startswith", "upper", "pop", "append", "match", "join", "clear"}
+STR_TOTAL_METHODS = {"lower", "casefold", "isascii", "isalpha", "isdigit", "isupper", "islower", "isspace", "isalnum", "strip", "lstrip", "rstrip",
+                     "title", "swapcase", "capitalize"}
 
 
 def rule_R4(ctx, typer, funcs):
@@ -313,6 +315,9 @@ def rule_R4(ctx, typer, funcs):
                         ok = False
                 elif res.kind == "method":
                     ok = res.name in ALLOWED_METHODS or _container_call_ok(ctx.p, f, ft, node)
+                    if not ok and res.name in STR_TOTAL_METHODS and isinstance(node.func, ast.Attribute) and not node.args:
+                        from ..nodetype import STR
+                        ok = ft.type_of(node.func.value) == STR  # total, effect-free methods of a str-typed receiver
                 elif res.kind == "callback":
                     ok = res.name == "cmp_"
                 elif res.kind == "ext":
@@ -354,7 +359,13 @@ def rule_R4(ctx, typer, funcs):
                     # leading separator: split() yields at least two parts
                     starts = any(isinstance(c, ast.Call) and isinstance(c.func, ast.Attribute) and c.func.attr == "startswith"
                                  and o is True for c, o, _ in gs)
-                    if not (nonempty or starts):
+                    # `S[i]` under `i < len(S)` (the loop condition of an index loop)
+                    bounded = isinstance(node.slice, ast.Name) and any(
+                        isinstance(c, ast.Compare) and len(c.ops) == 1 and o is True and (
+                            (isinstance(c.ops[0], ast.Lt) and norm(c.left) == node.slice.id and norm(c.comparators[0]) == "len(%s)" % name)
+                            or (isinstance(c.ops[0], ast.Gt) and norm(c.comparators[0]) == node.slice.id and norm(c.left) == "len(%s)" % name))
+                        for c, o, _ in gs)
+                    if not (nonempty or starts or bounded):
                         ok = False
                 if ok:
                     ctx.inst("R4", f, node, "index read dominated by a non-emptiness guard")
@@ -562,6 +573,11 @@ def _check_translation(ctx, typer, tr, patparam, result_expr):
             r = resolve_elem(tr, node.value)
             if isinstance(r, ast.Name) and r.id in tainted:
                 tainted.add(node.targets[0].id)
+    for node in walk_own(tr.node):
+        # a character taken by index: `char = pat[pos]`
+        if isinstance(node, ast.Assign) and len(node.targets) == 1 and isinstance(node.targets[0], ast.Name) and isinstance(node.value, ast.Subscript) \
+                and not isinstance(node.value.slice, ast.Slice) and isinstance(node.value.value, ast.Name) and node.value.value.id in tainted:
+            tainted.add(node.targets[0].id)
     changed = True
     while changed:
         changed = False
@@ -967,6 +983,49 @@ def rule_G2_G3(ctx, typer):
         return n
     for ma in owners:
         n += _g2_g3_owner(ctx, typer, ma, stores, loads, clears, others)
+    n += _g2_new_options(ctx)
+    return n
+
+
+def _g2_new_options(ctx):
+    """The cache is shared by all resolvers.  A NEW constructor option (analysed at its default everywhere else, see
+    sa/newoptions.py) that the cached value depends on must be part of the key, or a resolver that does not use the option
+    is served a pattern compiled for one that does.  Checked on the source as written (before the option is specialised)."""
+    import os
+    opts = []
+    for item in ctx.p.inlined.get(RES, {}).get("new_options_at_default", []):
+        if item.startswith("Resolver.__init__(") and "+self." in item:
+            opts.append(item.split("+self.")[1].strip())
+    if not opts:
+        return 0
+    try:
+        raw = ast.parse(open(os.path.join(ctx.p.repo, RES), encoding="utf-8").read())
+    except (OSError, SyntaxError):
+        return 0
+    n = 0
+    for fn in [x for x in ast.walk(raw) if isinstance(x, ast.FunctionDef)]:
+        stores = [x for x in ast.walk(fn) if isinstance(x, ast.Subscript) and isinstance(x.ctx, ast.Store) and isinstance(x.value, ast.Attribute)
+                  and x.value.attr == "_match_cache"]
+        if not stores:
+            continue
+        selfname = fn.args.args[0].arg if fn.args.args else "self"
+        used = {x.attr for x in ast.walk(fn) if isinstance(x, ast.Attribute) and isinstance(x.value, ast.Name) and x.value.id == selfname}
+        for st in stores:
+            key = st.slice
+            if isinstance(key, ast.Name):
+                defs = [a for a in ast.walk(fn) if isinstance(a, ast.Assign) and any(isinstance(t, ast.Name) and t.id == key.id for t in a.targets)]
+                key = defs[0].value if len(defs) == 1 else key
+            in_key = {x.attr for x in ast.walk(key) if isinstance(x, ast.Attribute) and isinstance(x.value, ast.Name) and x.value.id == selfname}
+            for o in opts:
+                n += 1
+                if o in used and o not in in_key:
+                    f = next((g for g in ctx.p.all_funcs if g.module.relpath == RES and g.srcname == fn.name), None)
+                    ctx.viol("G2", f, f.node if f is not None else None, "%s reads the new option self.%s while it fills the pattern cache that all "
+                             "resolvers share, but the cache key (`%s`) does not contain it: a resolver that leaves the option at its default is "
+                             "served patterns compiled for one that sets it" % (fn.name, o, ast.unparse(key)),
+                             construct="cache key misses new option %s" % o)
+                elif o in used:
+                    ctx.inst("G2", next((g for g in ctx.p.all_funcs if g.module.relpath == RES and g.srcname == fn.name), None), "key", "new option %s is part of the cache key" % o)
     return n
 
 
